@@ -18,6 +18,7 @@ static const fam_t FAMS[] = {
   {"alloc", fam_alloc},
   {"fault", fam_fault},
   {"io", fam_io},
+  {"baddims", fam_baddims},
   {NULL, NULL}};
 
 static void cfg_event(void) {
@@ -34,6 +35,8 @@ int vh_run_family(const vh_args_t *a) {
       if (strstr(a->extra, "views")) vh_views = 1;
       if (a->env & 1) vh_poison_alloc = 1;
       if (a->env & 2) vh_poison_free = 1;
+      if (a->env & 4) vh_npass = 2;
+      vh_leakcheck = !__M4RI_ENABLE_MMC;
       cfg_event();
       int r = f->fn(a);
       vh_raw("{\"e\":\"end\",\"events\":%ld}", CTX->nev);
